@@ -347,7 +347,10 @@ class Generator:
             mp = dict(kv.split(':') for kv in e.opts['rename'].split(','))
             both(R.rename_idents, mp, log)
         if 'ext_trait' in e.opts and e.kind == 'fn':
-            sig, body, impl = self._ext_trait(sig, body, impl, e.opts.get('extcall', ''), log)
+            sig, body, impl = self._ext_trait(sig, body, impl, subst(e.opts.get('extcall', ''), self.digit, self.digit2), log,
+                                              prefix=(e.opts['ext_trait'] if e.opts['ext_trait'] != '1' else None))
+            if impl is None:
+                modpath = ()
         return sig, body, impl, modpath
 
     @staticmethod
@@ -366,7 +369,7 @@ class Generator:
                 name = x
         return name
 
-    def _ext_trait(self, sig, body, impl, extcall, log):
+    def _ext_trait(self, sig, body, impl, extcall, log, prefix=None):
         """`[ext_trait]`: a method of an impl of an EXTERNAL trait (num_traits / num_integer are not available to
         single-file Verus) is emitted as an inherent method `<Trait>__<method>` of the Self type:
           * impl header `impl<G> Trait<..> for T`  ->  `impl<G> T`
@@ -378,7 +381,7 @@ class Generator:
         Nothing else changes; calls that resolve to inherent methods keep their text."""
         if impl is None or 'for' not in impl.split(' '):
             raise R.Unsupported('ext_trait on a fn that is not in a trait impl')
-        tr = self.ext_trait_name(impl)
+        tr = prefix or self.ext_trait_name(impl)
         t = impl.split(' ')
         # generics end
         i = 1
@@ -398,14 +401,101 @@ class Generator:
         fi = sig.index('fn')
         sig[fi + 1] = tr + '__' + sig[fi + 1]
         log['R17'] = log.get('R17', 0) + 1
+        selfty = t[t.index('for') + 1:]
+        if selfty and selfty[0] in R.BNUM_TYPES and self.x.impl_types.get(impl):
+            # `Self::Error` etc.: an inherent impl cannot declare associated types -> their definitions
+            amap0 = {}
+            for ty in self.x.impl_types.get(impl, []):
+                tt = ty.split(' ')
+                if tt[0] == 'type' and tt[2] == '=' and tt[-1] == ';':
+                    amap0[tt[1]] = tt[3:-1]
+
+            def rw0(toks):
+                o = []
+                k = 0
+                n = len(toks)
+                while k < n:
+                    if toks[k] == 'Self' and k + 2 < n and toks[k + 1] == '::' and toks[k + 2] in amap0 and not (k + 3 < n and toks[k + 3] == '::'):
+                        o += amap0[toks[k + 2]]
+                        k += 3
+                        continue
+                    o.append(toks[k])
+                    k += 1
+                return o
+            sig = rw0(sig)
+            body = rw0(body)
+        if selfty and selfty[0] not in R.BNUM_TYPES:
+            # R17f: the Self type is not a bnum type (`impl TryFrom<BUint<N>> for u8`, `impl From<BUint<N>> for [u64; N]`):
+            # no inherent impl can be written for it, so the method is emitted as a FREE fn: the impl's generic
+            # parameters move to the fn, `Self::X` (associated type of the impl) -> its definition, `Self` -> the type
+            gens = t[2:i - 1] if t[1] == '<' else []
+            amap = {}
+            for ty in self.x.impl_types.get(impl, []):
+                tt = ty.split(' ')
+                if tt[0] == 'type' and tt[2] == '=' and tt[-1] == ';':
+                    amap[tt[1]] = tt[3:-1]
+
+            def rw(toks):
+                o = []
+                k = 0
+                n = len(toks)
+                while k < n:
+                    x = toks[k]
+                    if x == 'Self' and k + 2 < n and toks[k + 1] == '::' and toks[k + 2] in amap:
+                        o += amap[toks[k + 2]]
+                        k += 3
+                        continue
+                    if x == 'Self':
+                        o += (['<'] + selfty + ['>']) if (k + 1 < n and toks[k + 1] == '::') else selfty
+                        k += 1
+                        continue
+                    o.append(x)
+                    k += 1
+                return o
+            sig = rw(sig)
+            body = rw(body)
+            fi = sig.index('fn')
+            if gens:
+                if sig[fi + 2] == '<':
+                    sig[fi + 3:fi + 3] = gens + [',']
+                else:
+                    sig[fi + 2:fi + 2] = ['<'] + gens + ['>']
+            if sig[0] != 'pub':
+                sig = ['pub'] + sig
+            log['R17f'] = 1
+            impl2 = None
         if extcall:
             pats = {}
+            seqs = []
             for kv in extcall.split(','):
-                k, v = kv.rsplit(':', 1)
-                if '::' in k:
+                # value may itself be a path (`$BUint::From_u8__from`): split at the last single ':'
+                m_ = re.match(r'^(.*?[^:]):([^:].*)$', kv)
+                k, v = m_.group(1), m_.group(2)
+                if k.startswith('<') or '::' in v:
+                    # general form: the token sequence `PATH :: m` followed by `(` is replaced by the tokens of the value
+                    seqs.append((lex(k), lex(v)))
+                elif '::' in k:
                     pats[('::',) + tuple(k.split('::'))] = v
                 else:
                     pats[tuple(k.split('.'))] = v
+            if seqs:
+                b2 = []
+                j = 0
+                n = len(body)
+                while j < n:
+                    hit = False
+                    for pk, pv in seqs:
+                        L = len(pk)
+                        if body[j:j + L] == pk and j + L < n and body[j + L] == '(' and (j == 0 or body[j - 1] not in ('::', '.')):
+                            b2 += pv
+                            j += L
+                            log['R17c'] = log.get('R17c', 0) + 1
+                            hit = True
+                            break
+                    if not hit:
+                        b2.append(body[j])
+                        j += 1
+                body = b2
             out = []
             n = len(body)
             for j, x in enumerate(body):
